@@ -21,6 +21,24 @@ def _alarm(signum, frame):
     raise HistoryTimeout()
 
 
+class watchdog:
+    """context manager: raise HistoryTimeout in the main thread after `seconds`"""
+
+    def __init__(self, seconds):
+        self.seconds = seconds
+
+    def __enter__(self):
+        import signal
+        self.old = signal.signal(signal.SIGALRM, _alarm)
+        signal.setitimer(signal.ITIMER_REAL, self.seconds)
+
+    def __exit__(self, *a):
+        import signal
+        signal.setitimer(signal.ITIMER_REAL, 0)
+        signal.signal(signal.SIGALRM, self.old)
+        return False
+
+
 HISTORY_TIMEOUT = 90   # seconds per history (a history normally takes well under a second)
 
 
